@@ -32,7 +32,7 @@ RULE = (
     "length <= n over {DSC to each offered session, DSC to an unoffered session, SecurityAccess seed, right key, wrong key, ECUReset, read F186, "
     "read/write/routine on 2 identifiers, TesterPresent, TesterPresent with suppress bit} (requests are derived from the model and from earlier "
     "replies, e.g. the right key); database shapes {one run; the same history recorded twice; two ECUs (two seeds, same requests) selected by "
-    "ECU name; selected by properties}. Each case records with the real client + DBHandler and replays with the real DBUDSServer from the "
+    "ECU name (tagged before or after further runs are logged); selected by properties (truthy, falsy, null values)}. Each case records with the real client + DBHandler and replays with the real DBUDSServer from the "
     "default state. states = distinct (seed, recorded transcript, replay transcript); transitions = requests recorded + requests replayed"
 )
 ASSUMPTIONS = [
@@ -252,6 +252,14 @@ def execute(item: dict[str, Any]) -> dict[str, Any]:
             if shape == "twice":
                 G["run_tag"] = "A2"
                 await record(path, seed, letters, "tcp-lines://ecu-a:1", None, box, "A2")
+            elif shape == "name-more":
+                # an analyst tags the first run's address with an ECU name; later another ECU and another run of ECU A are logged
+                tag_ecus(path, {"tcp-lines://ecu-a:1": "A"})
+                G["run_tag"] = "B"
+                await record(path, seed + 1000, letters, "tcp-lines://ecu-b:1", None, box, "B")
+                G["run_tag"] = "A2"
+                await record(path, seed, letters, "tcp-lines://ecu-a:1", None, box, "A2")
+                name = "A"
             elif shape in ("name", "props", "props0"):
                 G["run_tag"] = "B"
                 propsB = G["Props"](vin="WVWBBB", sw=1) if shape != "props0" else G["Props"](vin="x", sw=7, coding=True, note="n")
@@ -356,7 +364,7 @@ def items(tier: str, seed: int) -> list[Any]:
                 if n <= 2:
                     shapes += ["twice", "name", "props"]
                 if n == 1 or (n == 2 and seq[0] == seq[1]):
-                    shapes += ["props0"]
+                    shapes += ["props0", "name-more"]
                 for sh in shapes:
                     out.append({"seed": sd, "letters": list(seq), "shape": sh, "sample": sd == 1 and seq in (("dsc2", "seed", "keyok"), ("dsc2", "rd1")) and sh == "one"})
         # deeper states first: prefixes that leave the default session / unlock security, then every short suffix
